@@ -52,8 +52,31 @@ fn joined_world(src: &mut Source) -> World {
     World { lang, recs, limit: 10, queries, markers: (SL.to_string(), SR.to_string()) }
 }
 
+/// a title of 21-45 words and queries aimed at its late words
+fn long_title_world(src: &mut Source) -> World {
+    let lang = gen_lang(src);
+    let vocab = gen_vocab(src, lang, Flavor::Clean, 3, 8);
+    let n = src.range(21, 45);
+    let mut words: Vec<String> = (0..n).map(|_| if src.chance(1, 2) { src.pick(&vocab).clone() } else { gen_random_word(src, lang, true) }).collect();
+    // a word that occurs only late in the title
+    let late = gen_random_word(src, lang, false);
+    let pos = src.range(20, n - 1);
+    words[pos] = late.clone();
+    let title = words.join(" ");
+    let mut recs: Vec<Rec> = vec![(1, title, gen_rating(src))];
+    if src.chance(1, 2) {
+        recs.push((2, gen_title(src, lang, &vocab, Flavor::Clean), gen_rating(src)));
+    }
+    let lc: Vec<char> = late.chars().collect();
+    let q1: String = lc[..1 + src.below(lc.len())].iter().collect();
+    let q2 = format!("{} {}", words[n - 1], late);
+    World { lang, recs, limit: 10, queries: vec![q1, late, q2], markers: (SL.to_string(), SR.to_string()) }
+}
+
 pub fn decode(src: &mut Source) -> Box<dyn Case> {
-    let mut w = if src.chance(2, 5) {
+    let mut w = if src.chance(1, 12) {
+        long_title_world(src)
+    } else if src.chance(2, 5) {
         joined_world(src)
     } else {
         let mut w = gen_world(src, WorldOpts { dup_ids: false, ..WorldOpts::highlight() });
@@ -128,6 +151,7 @@ impl Case for C09Case {
                 }
                 ctx.label_if(p.spans.len() >= 2, "multi-span");
                 ctx.label_if(!has_alnum, "empty-query-hit");
+                ctx.label_if(t.words.len() > 20 && p.spans.iter().any(|&(st, _, _)| t.words.iter().position(|wd| wd.slice.0 == st).map(|i| i >= 20).unwrap_or(false)), "span-beyond-20th-word");
                 let inside = p.spans.iter().any(|&(st, emin, emax)| t.words.iter().any(|wd| wd.slice.0 == st && emax < wd.slice.1 && emin < wd.slice.1));
                 if p.spans.len() >= 2 || inside {
                     ctx.nontrivial();
